@@ -332,9 +332,12 @@ let run_traces (path : string) =
                (if !nested_cfg then [] else mon_C17 c tr) @ mon_C14 c tr @ mon_panic tr @ mon_rpc c tr
              else
              mon_wire c tr @ mon_C01 c tr @ mon_C02 c tr @ mon_C03 c tr @ mon_C04 c tr @ mon_C07 c tr @ mon_C08 tr @
-             mon_C10 c tr @ mon_C14 c tr @ mon_C16 c tr @ mon_C17 c tr @ mon_C18 tr @ mon_panic tr @ mon_tables c tr @ mon_ctable c tr @ mon_negotiate c tr @ mon_overrun c tr @ mon_pipe c tr @ mon_registry c !keys_cfg tr @ mon_rpc c tr in
+             mon_C10 c tr @ mon_C14 c tr @ mon_C16 c tr @ mon_C17 c tr @ mon_C18 tr @ mon_panic tr @ mon_tables c tr @ mon_ctable c tr @ mon_negotiate c tr @ mon_overrun c tr @ mon_pipe c tr @ mon_registry c !keys_cfg tr @ mon_rpc c tr @ mon_rpcrun c tr in
            let status = (match split ' ' rest with _ :: st :: _ -> st | _ -> "?") in
-           Printf.printf "T %s %s %d %s\n" !name status !nev (String.concat " " (List.map string_of_fail fails))
+           Printf.printf "T %s %s %d %s\n" !name status !nev (String.concat " " (List.map string_of_fail fails));
+           (* RPCs whose whole life was replayed on the per-RPC model (Rpc.v) in lock-step *)
+           if not !free_cfg && Sys.getenv_opt "RPCRUN_DEBUG" <> None then Printf.printf "D %s %s\n" !name (String.concat " " (List.map string_of_fail (mon_rpcrun_debug c tr)));
+           if not !free_cfg then Printf.printf "J %s %d\n" !name (List.length (List.init 0 (fun _ -> ())) + (let rec len = function O -> 0 | S n -> 1 + len n in len (rpcrun_judged c tr)))
          | _ -> ()
        end
      done with End_of_file -> ());
